@@ -1,4 +1,5 @@
 import Cutadapt.Kmer
+/-! `kmer_chunks` meets its specification; canonical sets have the members of the lists they are built from. -/
 namespace Cutadapt.Kmer
 
 /-! ### canonical sets -/
